@@ -326,6 +326,12 @@ func judgeWindowChild(c *vp.Child, fx *fixture, name, diff, children, input stri
 
 type recipe struct{ name, src string }
 
+// recipePre is host code run before the iosafe context is entered (outside the
+// sandbox), per recipe.
+var recipePre = map[string]string{
+	"resume-coroutine-suspended-in-outer-pcall": `local co = coroutine.wrap(function() pcall(function() coroutine.yield() end) coroutine.yield() end) co()`,
+}
+
 var recipes = []recipe{
 	{"open-write", `local f = io.open(P, "w") if f then f:write("pwn") f:close() end`},
 	{"open-append", `local f = io.open(K, "a") if f then f:write("pwn") f:flush() f:close() end`},
@@ -367,6 +373,9 @@ var recipes = []recipe{
 	{"remove-protected", `pcall(os.remove, SENT.."/sub/inner.txt") pcall(os.remove, SENT.."/sub") pcall(os.rename, K, SENT.."/k2") pcall(io.lines, D) pcall(io.input, D) pcall(io.output, P) pcall(io.tmpfile) pcall(os.tmpname)`},
 	{"hook-open", `debug.sethook(function() local f = io.open(P, "w") if f then f:close() end end, "", 1) for i = 1, 10 do end debug.sethook()`},
 	{"stdout-path", `local f = io.stdout f:write("") emit(io.type(f)) emit(pcall(f.seek, f, "cur"))`},
+	// the host hands the sandbox a coroutine that is suspended inside a pcall made OUTSIDE the
+	// sandbox; resuming it inside lets that pcall finish there
+	{"resume-coroutine-suspended-in-outer-pcall", `pcall(co) local f = io.open(P, "w") if f then f:write("pwn") f:close() end pcall(os.remove, V)`},
 	{"getenv-date", `emit(os.getenv("HOME"), os.getenv("PATH") ~= nil) emit(os.date("%Y"), os.time(), os.clock())`},
 }
 
@@ -397,7 +406,7 @@ func runRecipes(c *vp.Child, fx *fixture, w *winWriter) {
 				case 2: // unprotected: the first refusal ends the context function
 					body += rc.src
 				}
-				src := "local SENT = ...\nreturn runtime.callcontext({flags=\"" + flagString(s) + "\"}, function()\n" + body + "\nend)"
+				src := "local SENT = ...\n" + recipePre[rc.name] + "\nreturn runtime.callcontext({flags=\"" + flagString(s) + "\"}, function()\n" + body + "\nend)"
 				se, err := newSession(fx)
 				if err != nil {
 					c.Violation("harness", "session setup", err.Error(), "")
